@@ -53,6 +53,7 @@ typedef struct rop_s {
   uint64_t seen[MAXKEYS];       /* R_GET: seen[0]; R_SNAP/R_ITER: per key; 0 = not found, ~0 = error */
   uint64_t seen2[MAXKEYS];      /* R_SNAP: the same view read through an iterator created with the snapshot */
   int have2;
+  int changed_key; uint64_t changed_from, changed_to;   /* R_SNAP: re-read through the same snapshot before release differs (-1 = stable) */
 } rop_t;
 
 typedef struct thr_s {
@@ -229,6 +230,19 @@ static void *reader_main(void *arg) {
           read_all_through_iter(it, r->seen2);
           ldb_iter_destroy(it);
           r->have2 = 1;
+        }
+        /* the view must not move while the snapshot is held: read everything once more */
+        r->changed_key = -1;
+        ro = *ldb_readopt_default;
+        ro.snapshot = s;
+        if (!native_mode) sched_label("get(snapshot) again");
+        for (k = 0; k < MAXKEYS; k++) {
+          ldb_slice_t key = ldb_slice(kb, key_bytes(kb, k)), v;
+          uint64_t again;
+          int rc = ldb_get(H.db, &key, &v, &ro);
+          if (rc == LDB_OK) { again = read_value(&v); ldb_free(v.data); }
+          else again = rc == LDB_NOTFOUND ? 0 : ~(uint64_t)0;
+          if (again != r->seen[k] && r->changed_key < 0) { r->changed_key = k; r->changed_from = r->seen[k]; r->changed_to = again; }
         }
         if (!native_mode) sched_label("release");
         ldb_release(H.db, s);
@@ -599,6 +613,15 @@ static void check_cuts(void) {
         v[nv].inv = r->inv; v[nv].ret = r->ret;
         v[nv].how = r->kind == R_SNAP ? (pass ? "iterator(snapshot)" : "get(snapshot)") : "iterator";
         nv++;
+      }
+      if (r->kind == R_SNAP) {
+        vh_count("snapshot_views_reread_before_release", 1);
+        if (r->changed_key >= 0) {
+          hv("C06", "snapshot-view-changed-while-held", "key %d read %llx through the snapshot and %llx through the same snapshot later (concurrent run)",
+             r->changed_key, (unsigned long long)r->changed_from, (unsigned long long)r->changed_to);
+          hv("C08", "snapshot-view-changed-while-held", "key %d read %llx through the snapshot and %llx through the same snapshot later",
+             r->changed_key, (unsigned long long)r->changed_from, (unsigned long long)r->changed_to);
+        }
       }
       if (r->have2) {
         int k;
